@@ -293,6 +293,26 @@ Lemma fold_ains_sorted {V} (es : list (N * V)) : forall d, amap_sorted d ->
   amap_sorted (fold_left (fun acc e => ains (fst e) (snd e) acc) es d).
 Proof. induction es as [|e es IH]; intros d S; cbn [fold_left]; [exact S|]. apply IH. now apply ains_sorted. Qed.
 
+(* ---------- MutableDictionary's PartialEq on the model's dictionaries ---------- *)
+Lemma text_eqb_eq a : forall b, text_eqb a b = true <-> a = b.
+Proof.
+  induction a as [|x a IH]; intros [|y b]; cbn [text_eqb].
+  - split; reflexivity.
+  - split; discriminate.
+  - split; discriminate.
+  - rewrite andb_true_iff, N.eqb_eq, IH. split; [intros [-> ->]; reflexivity|intros H; injection H as -> ->; auto].
+Qed.
+
+Lemma dict_eqb_eq a : forall b, dict_eqb a b = true <-> a = b.
+Proof.
+  induction a as [|[k w] a IH]; intros [|[k' w'] b]; cbn [dict_eqb].
+  - split; reflexivity.
+  - split; discriminate.
+  - split; discriminate.
+  - rewrite !andb_true_iff, N.eqb_eq, text_eqb_eq, IH.
+    split; [intros [[-> ->] ->]; reflexivity|intros H; injection H as -> -> ->; auto].
+Qed.
+
 Section WasmFacts.
   Variable curated : config.
   Variable word_id : text -> N.
@@ -417,7 +437,7 @@ Section WasmFacts.
     - cbn [ignore_lint s_ignored]. rewrite hmem_hadd, H. reflexivity.
     - destruct (ignored_from_json json) as [hs|]; cbn [fst]; [|exact H].
       cbn [set_ignored s_ignored]. rewrite hmem_fold_hadd, H. reflexivity.
-    - unfold import_words. destruct (_ <? _); cbn [synchronize s_ignored]; exact H.
+    - unfold import_words. destruct (dict_eqb _ _); cbn [synchronize s_ignored]; exact H.
     - destruct c as [c|]; cbn [fst set_cfg s_ignored]; exact H.
   Qed.
 
@@ -476,6 +496,42 @@ Section WasmFacts.
       split; [exact E|]. intros t lang. apply lint_congr; try reflexivity. exact E.
   Qed.
 
+  (* ---------- the two facts about harper-core the full-strength clauses rest on (premises of the
+     theorems that use them; both are monitored on the real code by the harness) ---------- *)
+  (* the explicit choice a configuration makes for a rule: LintGroupConfig::is_rule_enabled reads
+     `inner.get(key).cloned().flatten()`, so a null entry and an absent entry are the same thing to the rules *)
+  Definition explicit (k : N) (c : config) : option bool :=
+    match aget k c with Some (Some b) => Some b | _ => None end.
+  Definition cfg_equiv (c c' : config) : Prop := forall k, explicit k c = explicit k c'.
+  (* LintGroup::lint reads its configuration only through is_rule_enabled *)
+  Definition raw_reads_choices_only : Prop :=
+    forall t lang c c' d dia, cfg_equiv c c' -> raw_lints t lang c d dia = raw_lints t lang c' d dia.
+  (* LintContext::from_lint blanks the dictionary metadata of the word tokens (fix 483b7cf), and the
+     dictionary enters a Document only through that metadata: the context hash is the same under every
+     user dictionary *)
+  Definition ctx_ignores_dict : Prop := forall l t lang d d', ctx l t lang d = ctx l t lang d'.
+
+  (* an ignored lint stays away — full strength: whatever is called in between (import_words,
+     set_lint_config, imports of other ignore lists, ...) until clear_ignored_lints, no later answer on
+     any text contains a lint with the ignored context, and no later answer on the same text contains
+     the ignored lint *)
+  Theorem ignore_persistent_full st t l cs t2 lang2 ls :
+    ctx_ignores_dict ->
+    Forall (fun c => c <> CClearIgnored) cs ->
+    let st1 := fst (step st (CIgnore t l)) in
+    let st2 := fst (run st1 cs) in
+    lint st2 t2 lang2 = Ok ls ->
+    Forall (fun w => (forall d d', ctx (winner w) t2 lang2 d <> ctx (winner l) t (wlang l) d')
+                     /\ (t2 = t -> lang2 = wlang l -> winner w <> winner l)) ls.
+  Proof.
+    intros HC F st1 st2 HL.
+    pose proof (ignore_persistent st t l cs t2 lang2 ls F HL) as P.
+    eapply Forall_impl; [|exact P]. cbn beta. intros w Hw.
+    assert (forall d d', ctx (winner w) t2 lang2 d <> ctx (winner l) t (wlang l) d') as A.
+    { intros d d' C. apply Hw. rewrite (HC _ _ _ _ d), (HC (winner l) _ _ _ d'). exact C. }
+    split; [exact A|]. intros -> -> E. apply (A [] []). now rewrite E.
+  Qed.
+
   (* ---------- custom words ---------- *)
   Definition dict_wf (d : dict) : Prop := amap_sorted d /\ Forall (fun kw => fst kw = word_id (snd kw)) d.
   Definition entry (w : text) : N * text := (word_id w, w).
@@ -524,6 +580,65 @@ Section WasmFacts.
   Lemma cfg_merge_clear_id c : forall a, cfg_merge_from a (cfg_clear c) = a.
   Proof. unfold cfg_merge_from, cfg_clear. induction c as [|kv c IH]; intros a; cbn [map fold_left snd]; [reflexivity|apply IH]. Qed.
 
+  (* import_words, as a case split on "did the user dictionary change" *)
+  Lemma import_words_cases st ws :
+    let u := dict_extend word_id (s_user st) ws in
+    (u = s_user st /\ import_words curated word_id st ws = st)
+    \/ (u <> s_user st /\
+        import_words curated word_id st ws =
+          mkst (cfg_merge_from (cfg_clear curated) (s_cfg st)) u u (s_ignored st) (s_stats st) (s_dialect st)).
+  Proof.
+    intros u. unfold import_words. cbn [s_user s_cfg s_lint_dict s_ignored s_stats s_dialect]. fold u.
+    destruct (dict_eqb u (s_user st)) eqn:E.
+    - left. apply dict_eqb_eq in E. split; [exact E|]. rewrite E. now destruct st.
+    - right. split; [intros C; apply dict_eqb_eq in C; congruence|reflexivity].
+  Qed.
+
+  (* the lint dictionary is the user dictionary: established by Linter::new, kept by every call
+     (import_words re-synchronises whenever the user dictionary changed — fix ba0a239) *)
+  Definition synced (st : state) : Prop := s_lint_dict st = s_user st.
+
+  Lemma import_words_synced st ws : synced st -> synced (import_words curated word_id st ws).
+  Proof.
+    intros H. destruct (import_words_cases st ws) as [[_ ->]|[_ ->]]; [exact H|reflexivity].
+  Qed.
+
+  Lemma step_synced st c : synced st -> synced (fst (step st c)).
+  Proof.
+    intros H. destruct c; cbn [Wasm.step fst]; try exact H.
+    - destruct (ignored_from_json json); exact H.
+    - now apply import_words_synced.
+    - destruct c as [c|]; exact H.
+  Qed.
+
+  (* invariants of a history, generically *)
+  Lemma run_invariant (P : state -> Prop) :
+    (forall st c, P st -> P (fst (step st c))) -> forall cs st, P st -> P (fst (run st cs)).
+  Proof.
+    intros HS cs. induction cs as [|c cs IH]; intros st H; cbn [Wasm.run]; [exact H|].
+    pose proof (HS st c H) as H1. destruct (step st c) as [st1 o]. cbn [fst] in H1.
+    specialize (IH st1 H1). destruct (run st1 cs) as [st2 os]. exact IH.
+  Qed.
+
+  Theorem run_synced cs st : synced st -> synced (fst (run st cs)).
+  Proof. apply run_invariant. exact step_synced. Qed.
+
+  Lemma step_dict_wf st c : dict_wf (s_user st) -> dict_wf (s_user (fst (step st c))).
+  Proof.
+    intros H. destruct c; cbn [Wasm.step fst]; try exact H.
+    - destruct (ignored_from_json json); exact H.
+    - destruct (import_words_cases st ws) as [[_ ->]|[_ ->]]; [exact H|]. cbn [s_user]. now apply dict_extend_wf.
+    - destruct c as [c|]; exact H.
+  Qed.
+
+  Lemma step_dialect st c : s_dialect (fst (step st c)) = s_dialect st.
+  Proof.
+    destruct c; cbn [Wasm.step fst]; try reflexivity.
+    - destruct (ignored_from_json json); reflexivity.
+    - destruct (import_words_cases st ws) as [[_ ->]|[_ ->]]; reflexivity.
+    - destruct c as [c|]; reflexivity.
+  Qed.
+
   (* a second linter that imports the exported words ends up synchronised on exactly those words *)
   Theorem words_roundtrip st dia ws :
     dict_wf (s_user st) -> Permutation ws (export_words st) ->
@@ -532,61 +647,13 @@ Section WasmFacts.
     /\ export_words st2 = export_words st.
   Proof.
     intros W P st2. unfold export_words in *. pose proof (words_reimport _ _ W P) as E.
-    subst st2. unfold import_words, new. cbn [s_user s_cfg s_lint_dict s_ignored s_stats s_dialect length].
-    rewrite E. destruct (0 <? length (s_user st)) eqn:L; cbn [synchronize s_user s_lint_dict s_cfg s_ignored].
+    subst st2. destruct (import_words_cases (new curated dia) ws) as [[Hu ->]|[_ ->]];
+      cbn [new s_user s_cfg s_lint_dict s_ignored s_stats s_dialect] in *; rewrite E in *.
+    - rewrite <- Hu. auto.
     - rewrite cfg_merge_clear_id. auto.
-    - apply Nat.ltb_ge in L. destruct (s_user st); [auto|cbn [length] in L; lia].
   Qed.
 
-  (* hence the same behaviour — provided the first linter was synchronised with what it exports *)
-  Corollary words_roundtrip_behaviour st st' ws :
-    dict_wf (s_user st) -> Permutation ws (export_words st) ->
-    s_lint_dict st = s_user st ->
-    s_user st' = [] -> s_lint_dict st' = [] -> s_dialect st' = s_dialect st ->
-    (forall h, hmem h (s_ignored st') = hmem h (s_ignored st)) ->
-    let st2 := import_words curated word_id st' ws in
-    s_cfg st2 = s_cfg st ->
-    forall t lang, lint st2 t lang = lint st t lang.
-  Proof.
-    intros W P Sy U Ld D I st2 C t lang. apply lint_congr; [exact C| | |].
-    - subst st2. unfold import_words. rewrite U. cbn [s_user length s_cfg s_lint_dict s_ignored s_stats s_dialect].
-      unfold export_words in P. rewrite (words_reimport _ _ W P).
-      destruct (0 <? length (s_user st)) eqn:L; cbn [synchronize s_lint_dict s_user]; [now rewrite Sy|].
-      apply Nat.ltb_ge in L. rewrite Sy, Ld. destruct (s_user st); [reflexivity|cbn [length] in L; lia].
-    - subst st2. unfold import_words. destruct (_ <? _); cbn [synchronize s_dialect]; exact D.
-    - subst st2. unfold import_words. destruct (_ <? _); cbn [synchronize s_ignored]; exact I.
-  Qed.
-
-  (* ... and it need not be: a respelling-only import leaves the linter on the old spelling *)
-  Theorem words_desync dia w1 w2 :
-    w1 <> w2 -> word_id w1 = word_id w2 ->
-    let st := fst (run (new curated dia) [CImportWords [w1]; CImportWords [w2]]) in
-    let st2 := import_words curated word_id (new curated dia) (export_words st) in
-    export_words st = [w2] /\ s_user st = [(word_id w1, w2)]
-    /\ s_lint_dict st = [(word_id w1, w1)] /\ s_lint_dict st2 = [(word_id w1, w2)]
-    /\ s_lint_dict st <> s_lint_dict st2
-    /\ s_cfg st = s_cfg st2 /\ s_ignored st = s_ignored st2 /\ s_dialect st = s_dialect st2
-    /\ (forall t lang,
-          lint st t lang = attach t lang (ro_full (raw_lints t lang (cfg_fill_with_curated curated (cfg_clear curated)) [(word_id w1, w1)] dia))
-          /\ lint st2 t lang = attach t lang (ro_full (raw_lints t lang (cfg_fill_with_curated curated (cfg_clear curated)) [(word_id w1, w2)] dia))).
-  Proof.
-    intros Hne Hid st st2.
-    assert (st = mkst (cfg_clear curated) [(word_id w1, w2)] [(word_id w1, w1)] [] [] dia) as Est.
-    { subst st. cbn [Wasm.run Wasm.step fst]. unfold import_words, new, dict_extend.
-      cbn [s_user s_cfg s_lint_dict s_ignored s_stats s_dialect fold_left ains length Nat.ltb Nat.leb synchronize].
-      rewrite cfg_merge_clear_id. cbn [s_user s_cfg s_lint_dict s_ignored s_stats s_dialect fold_left ains length].
-      rewrite <- Hid, N.compare_refl. cbn [length Nat.ltb Nat.leb s_user s_cfg s_lint_dict s_ignored s_stats s_dialect]. reflexivity. }
-    assert (st2 = mkst (cfg_clear curated) [(word_id w1, w2)] [(word_id w1, w2)] [] [] dia) as Est2.
-    { subst st2. rewrite Est. unfold export_words, import_words, new, dict_extend.
-      cbn [map snd s_user s_cfg s_lint_dict s_ignored s_stats s_dialect fold_left ains length Nat.ltb Nat.leb].
-      unfold synchronize. cbn [s_user s_cfg s_lint_dict s_ignored s_stats s_dialect].
-      rewrite cfg_merge_clear_id, Hid. reflexivity. }
-    rewrite Est, Est2. cbn [s_user s_cfg s_lint_dict s_ignored s_stats s_dialect export_words map snd].
-    repeat split; try reflexivity.
-    intros C. injection C as C. apply Hne. exact C.
-  Qed.
-
-  (* ---------- configuration: the overlay around lint, and what synchronize_lint_dict does to it ---------- *)
+  (* ---------- configuration: the overlay around lint, what set_lint_config and synchronize_lint_dict do to it ---------- *)
   Lemma aget_cfg_merge_from (b : config) : forall (a : config) k, NoDup (map fst b) ->
     aget k (cfg_merge_from a b) = match aget k b with Some (Some v) => Some (Some v) | _ => aget k a end.
   Proof.
@@ -630,61 +697,166 @@ Section WasmFacts.
     = match aget k c with Some (Some v) => Some (Some v) | _ => aget k curated end.
   Proof. intros S. unfold cfg_fill_with_curated. apply aget_cfg_merge_from. now apply sorted_nodup. Qed.
 
-  (* invariant of every configuration reachable from Linter::new: sorted, an unset entry is a curated
-     rule, every curated rule has an entry *)
-  Definition cfg_ok (c : config) : Prop :=
-    amap_sorted c /\
-    forall k, match aget k c with
-              | Some None => aget k curated <> None
-              | Some (Some _) => True
-              | None => aget k curated = None
-              end.
-
-  Lemma cfg_ok_new : amap_sorted curated -> cfg_ok (cfg_clear curated).
+  Lemma explicit_merge (a b : config) k : amap_sorted b ->
+    explicit k (cfg_merge_from a b) = match explicit k b with Some v => Some v | None => explicit k a end.
   Proof.
-    intros S. split; [now apply cfg_clear_sorted|]. intros k. rewrite aget_cfg_clear.
-    destruct (aget k curated); [discriminate|reflexivity].
+    intros S. unfold explicit. rewrite aget_cfg_merge_from by (now apply sorted_nodup).
+    destruct (aget k b) as [[v|]|]; reflexivity.
   Qed.
 
-  Lemma cfg_ok_merge c x : cfg_ok c -> cfg_ok (cfg_merge_from c x).
+  Lemma explicit_clear (c : config) k : explicit k (cfg_clear c) = None.
+  Proof. unfold explicit. rewrite aget_cfg_clear. now destruct (aget k c). Qed.
+
+  (* set_lint_config_from_json REPLACES the explicit choices (fix b67a243: clear, then merge): afterwards
+     a rule is explicitly on/off exactly when the new configuration says so; every key the linter knew
+     stays listed (as null when the new configuration does not choose) *)
+  Theorem set_config_replaces st c k : amap_sorted c ->
+    let st' := fst (step st (CSetConfig (Some c))) in
+    explicit k (s_cfg st') = explicit k c
+    /\ aget k (s_cfg st') = match aget k c with
+                            | Some (Some v) => Some (Some v)
+                            | _ => match aget k (s_cfg st) with Some _ => Some None | None => None end
+                            end
+    /\ s_user st' = s_user st /\ s_lint_dict st' = s_lint_dict st /\ s_ignored st' = s_ignored st
+    /\ s_stats st' = s_stats st /\ s_dialect st' = s_dialect st.
   Proof.
-    intros [S K]. split; [now apply cfg_merge_sorted|]. intros k. specialize (K k).
-    destruct (cfg_merge_inherits x c k) as [H|[v H]]; rewrite H; [exact K|exact I].
+    intros S st'. subst st'. cbn [Wasm.step fst set_cfg s_cfg s_user s_lint_dict s_ignored s_stats s_dialect].
+    split; [|split; [|auto]].
+    - rewrite explicit_merge by exact S. rewrite explicit_clear. now destruct (explicit k c).
+    - rewrite aget_cfg_merge_from by (now apply sorted_nodup). now rewrite aget_cfg_clear.
   Qed.
 
-  (* synchronize_lint_dict gives back the configuration it found *)
-  Theorem sync_keeps_config c : amap_sorted curated -> cfg_ok c -> cfg_merge_from (cfg_clear curated) c = c.
+  (* invariant of every configuration reachable from Linter::new: sorted, and every curated rule is listed *)
+  Definition cfg_inv (c : config) : Prop :=
+    amap_sorted c /\ forall k, aget k curated <> None -> aget k c <> None.
+
+  Lemma cfg_inv_new : amap_sorted curated -> cfg_inv (cfg_clear curated).
   Proof.
-    intros SC [S K]. apply amap_ext; [apply cfg_merge_sorted; now apply cfg_clear_sorted|exact S|].
-    intros k. rewrite aget_cfg_merge_from by (now apply sorted_nodup). specialize (K k).
-    rewrite aget_cfg_clear. destruct (aget k c) as [[v|]|]; [reflexivity| |].
-    - destruct (aget k curated); [reflexivity|congruence].
-    - now rewrite K.
+    intros S. split; [now apply cfg_clear_sorted|]. intros k H. rewrite aget_cfg_clear.
+    destruct (aget k curated); [discriminate|congruence].
   Qed.
 
-  Lemma step_cfg_ok st c : amap_sorted curated -> cfg_ok (s_cfg st) -> cfg_ok (s_cfg (fst (step st c))).
+  Lemma cfg_inv_merge c x : cfg_inv c -> cfg_inv (cfg_merge_from c x).
+  Proof.
+    intros [S K]. split; [now apply cfg_merge_sorted|]. intros k Hk. specialize (K k Hk).
+    destruct (cfg_merge_inherits x c k) as [H|[v H]]; rewrite H; [exact K|discriminate].
+  Qed.
+
+  Lemma cfg_inv_clear c : cfg_inv c -> cfg_inv (cfg_clear c).
+  Proof.
+    intros [S K]. split; [now apply cfg_clear_sorted|]. intros k Hk. specialize (K k Hk).
+    rewrite aget_cfg_clear. destruct (aget k c); [discriminate|congruence].
+  Qed.
+
+  (* synchronize_lint_dict (new curated group with cleared config, saved config merged back): explicit
+     choices and the entries of curated rules come back as they were; the one thing lost is a null entry
+     of a key that is not a curated rule *)
+  Lemma aget_sync c k : amap_sorted c -> cfg_inv c ->
+    aget k (cfg_merge_from (cfg_clear curated) c)
+    = match aget k c with
+      | Some (Some v) => Some (Some v)
+      | Some None => match aget k curated with Some _ => Some None | None => None end
+      | None => None
+      end.
+  Proof.
+    intros S [_ K]. rewrite aget_cfg_merge_from by (now apply sorted_nodup). rewrite aget_cfg_clear.
+    destruct (aget k c) as [[v|]|] eqn:E; try reflexivity.
+    destruct (aget k curated) eqn:E2; [|reflexivity]. exfalso. apply (K k); [congruence|exact E].
+  Qed.
+
+  Lemma cfg_inv_sync c : amap_sorted curated -> cfg_inv c -> cfg_inv (cfg_merge_from (cfg_clear curated) c).
+  Proof. intros SC H. apply cfg_inv_merge. now apply cfg_inv_new. Qed.
+
+  Lemma step_cfg_inv st c : amap_sorted curated -> cfg_inv (s_cfg st) -> cfg_inv (s_cfg (fst (step st c))).
   Proof.
     intros SC H. destruct c; cbn [Wasm.step fst]; try exact H.
     - destruct (ignored_from_json json); exact H.
-    - unfold import_words. destruct (_ <? _); cbn [synchronize s_cfg]; [|exact H].
-      now rewrite sync_keeps_config.
-    - destruct c as [c|]; cbn [fst set_cfg s_cfg]; [now apply cfg_ok_merge|exact H].
+    - destruct (import_words_cases st ws) as [[_ ->]|[_ ->]]; [exact H|]. cbn [s_cfg]. now apply cfg_inv_sync.
+    - destruct c as [c|]; cbn [fst set_cfg s_cfg]; [|exact H]. apply cfg_inv_merge. now apply cfg_inv_clear.
   Qed.
 
-  Theorem run_cfg_ok cs : forall st, amap_sorted curated -> cfg_ok (s_cfg st) -> cfg_ok (s_cfg (fst (run st cs))).
-  Proof.
-    induction cs as [|c cs IH]; intros st SC H; cbn [Wasm.run]; [exact H|].
-    pose proof (step_cfg_ok st c SC H) as H1. destruct (step st c) as [st1 o]. cbn [fst] in H1.
-    specialize (IH st1 SC H1). destruct (run st1 cs) as [st2 os]. exact IH.
-  Qed.
+  Theorem run_cfg_inv cs st : amap_sorted curated -> cfg_inv (s_cfg st) -> cfg_inv (s_cfg (fst (run st cs))).
+  Proof. intros SC. apply (run_invariant (fun st => cfg_inv (s_cfg st))). intros; now apply step_cfg_inv. Qed.
 
-  (* in every history that starts with Linter::new, importing words never changes the configuration *)
-  Theorem import_words_keeps_config dia cs ws : amap_sorted curated ->
+  (* in every history that starts with Linter::new, import_words (with its rebuild + re-merge) keeps every
+     explicit choice and every entry of a curated rule; the only thing that can change is that a null
+     entry of a name that is no curated rule disappears *)
+  Theorem import_words_keeps_config dia cs ws k : amap_sorted curated ->
     let st := fst (run (new curated dia) cs) in
-    s_cfg (import_words curated word_id st ws) = s_cfg st.
+    let a := aget k (s_cfg (import_words curated word_id st ws)) in
+    let b := aget k (s_cfg st) in
+    explicit k (s_cfg (import_words curated word_id st ws)) = explicit k (s_cfg st)
+    /\ (a = b \/ (b = Some None /\ aget k curated = None /\ a = None)).
   Proof.
-    intros SC st. assert (cfg_ok (s_cfg st)) as H by (apply run_cfg_ok; [exact SC|now apply cfg_ok_new]).
-    unfold import_words. destruct (_ <? _); cbn [synchronize s_cfg]; [now apply sync_keeps_config|reflexivity].
+    intros SC st a b. assert (cfg_inv (s_cfg st)) as H by (apply run_cfg_inv; [exact SC|now apply cfg_inv_new]).
+    subst a b. destruct (import_words_cases st ws) as [[_ ->]|[_ ->]]; [split; [reflexivity|now left]|].
+    cbn [s_cfg]. unfold explicit. rewrite (aget_sync _ k (proj1 H) H).
+    destruct (aget k (s_cfg st)) as [[v|]|]; [split; [reflexivity|now left]| |split; [reflexivity|now left]].
+    destruct (aget k curated) eqn:E; [split; [reflexivity|now left]|]. split; [reflexivity|]. right. auto.
+  Qed.
+
+  (* ---------- lint reads the configuration through the explicit choices ---------- *)
+  Lemma fill_equiv c c' : amap_sorted c -> amap_sorted c' -> cfg_equiv c c' ->
+    cfg_equiv (cfg_fill_with_curated curated c) (cfg_fill_with_curated curated c').
+  Proof.
+    intros S S' E k. unfold cfg_fill_with_curated. rewrite !explicit_merge by assumption. now rewrite (E k).
+  Qed.
+
+  Lemma lint_congr_cfg st1 st2 t lang :
+    raw_reads_choices_only ->
+    amap_sorted (s_cfg st1) -> amap_sorted (s_cfg st2) -> cfg_equiv (s_cfg st1) (s_cfg st2) ->
+    s_lint_dict st1 = s_lint_dict st2 -> s_dialect st1 = s_dialect st2 ->
+    (forall h, hmem h (s_ignored st1) = hmem h (s_ignored st2)) ->
+    lint st1 t lang = lint st2 t lang.
+  Proof.
+    intros HR S1 S2 E Hd Hdi Hi. unfold api_lint, Wasm.lint_kept.
+    rewrite (HR t lang _ _ (s_lint_dict st1) (s_dialect st1) (fill_equiv _ _ S1 S2 E)).
+    rewrite Hd, Hdi. f_equal. apply remove_ignored_ext. exact Hi.
+  Qed.
+
+  (* ---------- "exporting then importing the custom words restores the same behaviour", full strength:
+     for EVERY history on a linter, a second linter built with Linter::new that is given the first one's
+     configuration (get/set_lint_config), ignore list (export/import) and exported words — in any order —
+     exports the same words and lints every text in both languages exactly as the first one does ---------- *)
+  Theorem words_roundtrip_full dia cs ws :
+    amap_sorted curated -> raw_reads_choices_only ->
+    let st := fst (run (new curated dia) cs) in
+    Permutation ws (export_words st) ->
+    let st2 := fst (run (new curated dia)
+                      [CSetConfig (Some (s_cfg st)); CImportIgnored (print_ignored (s_ignored st)); CImportWords ws]) in
+    export_words st2 = export_words st /\ s_user st2 = s_user st /\ s_lint_dict st2 = s_lint_dict st
+    /\ forall t lang, lint st2 t lang = lint st t lang.
+  Proof.
+    intros SC HR st P st2.
+    assert (synced st) as Sy by (apply run_synced; reflexivity).
+    assert (dict_wf (s_user st)) as W.
+    { apply (run_invariant (fun s => dict_wf (s_user s))); [exact step_dict_wf|apply dict_wf_nil]. }
+    assert (s_dialect st = dia) as D.
+    { apply (run_invariant (fun s => s_dialect s = dia)); [intros s c H; now rewrite step_dialect|reflexivity]. }
+    assert (cfg_inv (s_cfg st)) as CI by (apply run_cfg_inv; [exact SC|now apply cfg_inv_new]).
+    pose proof (words_reimport _ _ W P) as E.
+    set (c1 := cfg_merge_from (cfg_clear (cfg_clear curated)) (s_cfg st)).
+    assert (amap_sorted c1) as S1 by (apply cfg_merge_sorted; now do 2 apply cfg_clear_sorted).
+    assert (forall k, explicit k c1 = explicit k (s_cfg st)) as E1.
+    { intros k. unfold c1. rewrite explicit_merge by (exact (proj1 CI)). rewrite explicit_clear.
+      now destruct (explicit k (s_cfg st)). }
+    set (sta := mkst c1 [] [] (fold_left hadd (s_ignored st) []) [] dia).
+    assert (st2 = import_words curated word_id sta ws) as E2.
+    { subst st2. cbn [Wasm.run Wasm.step fst]. rewrite (ignored_json_roundtrip (s_ignored st)).
+      cbn [fst set_ignored set_cfg new s_cfg s_user s_lint_dict s_ignored s_stats s_dialect]. reflexivity. }
+    assert (s_user st2 = s_user st /\ s_lint_dict st2 = s_lint_dict st /\ s_dialect st2 = s_dialect st
+            /\ s_ignored st2 = fold_left hadd (s_ignored st) []
+            /\ amap_sorted (s_cfg st2) /\ cfg_equiv (s_cfg st2) (s_cfg st)) as [Hu [Hl [Hd [Hi [Hs He]]]]].
+    { rewrite E2. destruct (import_words_cases sta ws) as [[Hu ->]|[_ ->]];
+        cbn [sta s_user s_cfg s_lint_dict s_ignored s_stats s_dialect] in *; rewrite E in *.
+      - rewrite Sy, <- Hu. repeat split; auto.
+      - rewrite Sy. repeat split; auto.
+        + apply cfg_merge_sorted. now apply cfg_clear_sorted.
+        + intros k. rewrite explicit_merge by exact S1. rewrite explicit_clear, E1.
+          now destruct (explicit k (s_cfg st)). }
+    split; [unfold export_words; now rewrite Hu|]. split; [exact Hu|]. split; [exact Hl|].
+    intros t lang. apply lint_congr_cfg; try assumption; [exact (proj1 CI)|].
+    intros h. rewrite Hi, hmem_fold_hadd. reflexivity.
   Qed.
 End WasmFacts.
 
@@ -692,18 +864,17 @@ End WasmFacts.
    WordId = the length of the word (so equally long words collide, as re-cased spellings do);
    the only rule reports a text that is not, as a whole, a word of the user dictionary ---------- *)
 Definition toy_word_id (w : text) : N := N.of_nat (length w).
-Definition text_eqb (a b : text) : bool := if list_eq_dec N.eq_dec a b then true else false.
 Definition toy_raw (t : text) (_ : language) (_ : config) (d : dict) (_ : nat) : list rlint :=
   if existsb (fun kw => text_eqb (snd kw) t) d then []
   else [mkrl (mkspan 0 (length t)) Spelling [] [] 63].
 Definition toy_ctx (l : rlint) (_ : text) (_ : language) (_ : dict) : N := N.of_nat (sstart (rspan l)).
 
-Theorem words_roundtrip_refuted :
-  exists (curated : config) (word_id : text -> N) raw_lints ctx (cs : list call) (t : text) (lang : language),
-    let st := fst (run curated word_id raw_lints ctx (new curated 0) cs) in
-    let st2 := import_words curated word_id (new curated 0) (export_words st) in
-    api_lint curated raw_lints ctx st t lang <> api_lint curated raw_lints ctx st2 t lang.
-Proof.
-  exists [], toy_word_id, toy_raw, toy_ctx, [CImportWords [[97; 98]%N]; CImportWords [[65; 66]%N]], [97; 98]%N, Plain.
-  vm_compute. discriminate.
-Qed.
+(* HISTORY (regression witness over the OLD import_words, before fix ba0a239; finding C16-F15): with
+   "synchronise only when the word count grew", `import [ab]; import [AB]` (one WordId) exported [AB] but
+   linted with {ab}; a linter rebuilt from the export linted "ab" differently. *)
+Theorem words_roundtrip_old_refuted :
+  let st1 := import_words_old [] toy_word_id (new [] 0) [[97; 98]%N] in
+  let st := import_words_old [] toy_word_id st1 [[65; 66]%N] in
+  let st2 := import_words_old [] toy_word_id (new [] 0) (export_words st) in
+  api_lint [] toy_raw toy_ctx st [97; 98]%N Plain <> api_lint [] toy_raw toy_ctx st2 [97; 98]%N Plain.
+Proof. vm_compute. discriminate. Qed.
